@@ -1,1 +1,169 @@
-//! stub
+//! Independent proleptic-Gregorian calendar from day-count arithmetic (no chrono), plus an
+//! RFC 3339 writer and reader.
+
+/// days since 1970-01-01 of the civil date (proleptic Gregorian); months 1-12, days 1-31
+pub fn days_from_civil(y: i64, m: u32, d: u32) -> i64 {
+    let y = if m <= 2 { y - 1 } else { y };
+    let era = if y >= 0 { y } else { y - 399 } / 400;
+    let yoe = y - era * 400; // [0, 399]
+    let mp = (m as i64 + 9) % 12; // March = 0
+    let doy = (153 * mp + 2) / 5 + d as i64 - 1; // [0, 365]
+    let doe = yoe * 365 + yoe / 4 - yoe / 100 + doy; // [0, 146096]
+    era * 146097 + doe - 719468
+}
+
+/// inverse of days_from_civil
+pub fn civil_from_days(z: i64) -> (i64, u32, u32) {
+    let z = z + 719468;
+    let era = if z >= 0 { z } else { z - 146096 } / 146097;
+    let doe = z - era * 146097; // [0, 146096]
+    let yoe = (doe - doe / 1460 + doe / 36524 - doe / 146096) / 365; // [0, 399]
+    let y = yoe + era * 400;
+    let doy = doe - (365 * yoe + yoe / 4 - yoe / 100); // [0, 365]
+    let mp = (5 * doy + 2) / 153; // [0, 11]
+    let d = (doy - (153 * mp + 2) / 5 + 1) as u32;
+    let m = if mp < 10 { mp + 3 } else { mp - 9 } as u32;
+    (if m <= 2 { y + 1 } else { y }, m, d)
+}
+
+pub fn is_leap(y: i64) -> bool {
+    (y % 4 == 0 && y % 100 != 0) || y % 400 == 0
+}
+
+pub fn days_in_month(y: i64, m: u32) -> u32 {
+    match m {
+        1 | 3 | 5 | 7 | 8 | 10 | 12 => 31,
+        4 | 6 | 9 | 11 => 30,
+        _ => {
+            if is_leap(y) {
+                29
+            } else {
+                28
+            }
+        }
+    }
+}
+
+#[derive(Debug, Clone, PartialEq)]
+pub struct Fields {
+    pub year: i64,
+    pub month: u32, // 1-12
+    pub day: u32,   // 1-31
+    pub hour: u32,
+    pub minute: u32,
+    pub second: u32,
+    pub nanos: u32,
+    /// 0 = Sunday
+    pub weekday: u32,
+    /// 0-based
+    pub day_of_year: u32,
+}
+
+/// local calendar fields of the instant (secs, nanos) seen at `off` seconds east of UTC
+pub fn fields(secs: i64, nanos: u32, off: i32) -> Fields {
+    let local = secs as i128 + off as i128;
+    let days = local.div_euclid(86400) as i64;
+    let sod = local.rem_euclid(86400) as u32;
+    let (year, month, day) = civil_from_days(days);
+    Fields {
+        year,
+        month,
+        day,
+        hour: sod / 3600,
+        minute: (sod / 60) % 60,
+        second: sod % 60,
+        nanos,
+        weekday: (days + 4).rem_euclid(7) as u32, // 1970-01-01 was a Thursday
+        day_of_year: (days - days_from_civil(year, 1, 1)) as u32,
+    }
+}
+
+/// instant of a local civil time at an offset
+pub fn instant(y: i64, mo: u32, d: u32, h: u32, mi: u32, s: u32, off: i32) -> i64 {
+    days_from_civil(y, mo, d) * 86400 + (h * 3600 + mi * 60 + s) as i64 - off as i64
+}
+
+/// RFC 3339 text; `frac_digits` = number of fractional digits to print (0 = none; the nanos must be representable)
+pub fn rfc3339(secs: i64, nanos: u32, off: i32, frac_digits: usize, zulu: bool) -> String {
+    let f = fields(secs, nanos, off);
+    let mut s = format!("{:04}-{:02}-{:02}T{:02}:{:02}:{:02}", f.year, f.month, f.day, f.hour, f.minute, f.second);
+    if frac_digits > 0 {
+        let all = format!("{:09}", nanos);
+        s.push('.');
+        s.push_str(&all[..frac_digits]);
+    }
+    if off == 0 && zulu {
+        s.push('Z');
+    } else {
+        let a = off.abs();
+        s.push_str(&format!("{}{:02}:{:02}", if off < 0 { '-' } else { '+' }, a / 3600, (a / 60) % 60));
+    }
+    s
+}
+
+/// strict RFC 3339 reader: returns (secs, nanos, off)
+pub fn parse_rfc3339(s: &str) -> Option<(i64, u32, i32)> {
+    let b = s.as_bytes();
+    let num = |r: std::ops::Range<usize>| -> Option<i64> {
+        let t = s.get(r)?;
+        if t.is_empty() || !t.bytes().all(|c| c.is_ascii_digit()) {
+            return None;
+        }
+        t.parse().ok()
+    };
+    if b.len() < 20 {
+        return None;
+    }
+    let y = num(0..4)?;
+    if b[4] != b'-' || b[7] != b'-' || !(b[10] == b'T' || b[10] == b't' || b[10] == b' ') || b[13] != b':' || b[16] != b':' {
+        return None;
+    }
+    let (mo, d, h, mi, sec) = (num(5..7)? as u32, num(8..10)? as u32, num(11..13)? as u32, num(14..16)? as u32, num(17..19)? as u32);
+    if mo < 1 || mo > 12 || d < 1 || d > days_in_month(y, mo) || h > 23 || mi > 59 || sec > 59 {
+        return None;
+    }
+    let mut i = 19;
+    let mut nanos = 0u32;
+    if b[i] == b'.' {
+        let start = i + 1;
+        let mut j = start;
+        while j < b.len() && b[j].is_ascii_digit() {
+            j += 1;
+        }
+        if j == start {
+            return None;
+        }
+        let digits = &s[start..j];
+        let mut padded = digits.chars().take(9).collect::<String>();
+        while padded.len() < 9 {
+            padded.push('0');
+        }
+        nanos = padded.parse().ok()?;
+        i = j;
+    }
+    let off = match b.get(i)? {
+        b'Z' | b'z' => {
+            if i + 1 != b.len() {
+                return None;
+            }
+            0
+        }
+        c @ (b'+' | b'-') => {
+            if i + 6 != b.len() || b[i + 3] != b':' {
+                return None;
+            }
+            let (oh, om) = (num(i + 1..i + 3)? as i32, num(i + 4..i + 6)? as i32);
+            if oh > 23 || om > 59 {
+                return None;
+            }
+            let v = oh * 3600 + om * 60;
+            if *c == b'-' {
+                -v
+            } else {
+                v
+            }
+        }
+        _ => return None,
+    };
+    Some((instant(y, mo, d, h, mi, sec, off), nanos, off))
+}
